@@ -70,7 +70,43 @@ def keyed_handoff(F, R, ver):
              'the PUBCOMP branch clears queues.rx regardless of the packet id: it discards the receiver stored for another exchange whose PUBREC arrived in between', p.loc(bi))
 
 
+def receipt_after_pubrec(F, R, ver):
+    """A PublishReceived receipt releases its exchange when it is dropped (PUBREL on Drop). It therefore comes into existence
+    only once the PUBREC has arrived: every construction (struct literal / PublishReceived::new) sits in the async part of
+    the send - in a coroutine body behind the Ready edge of an await, or in a closure that coroutine applies to the awaited
+    result. A receipt built eagerly, before the PUBLISH is registered, is dropped on the PacketIdInUse error path and
+    releases the *other* exchange that owns that id."""
+    n = 0
+    for b in F.find(r'^(<)?%s::sink::' % ver):
+        sites = [bi for bi, j, s in agg_sites(b, r'^%s::sink::PublishReceived$' % ver)]
+        sites += [bi for bi, t in b.calls_to(r'^%s::sink::PublishReceived::new$' % ver)]
+        if b.path.startswith('%s::sink::PublishReceived::' % ver):
+            continue    # its own constructor / builder methods
+        for bi in sites:
+            n += 1
+            anc = b
+            co = None
+            for _ in range(6):
+                if anc.is_coroutine:
+                    co = anc
+                    break
+                par = anc.d.get('parent')
+                anc = F.bodies.get(par) if par else None
+                if anc is None:
+                    break
+            if co is None:
+                ok = False
+            elif co is b:
+                ok = any(edge_dominates(b, a['switch'], a['ready'], bi) for a in await_points(b))
+            else:
+                ok = True
+            R.ob('C14.own-pubrel', '%s|%s|receipt-built-only-after-PUBREC' % (ver, re.sub(r'(::\{(closure|inl)#\d+\})+$', '', b.path)), ok,
+                 'a PublishReceived (whose Drop writes PUBREL for its packet id) is constructed before the acknowledgement was awaited: dropped on an error path it releases an exchange it does not belong to', b.loc(bi))
+    R.floor('C14.own-pubrel', '%s constructions of the QoS 2 receipt' % ver, n, 1)
+
+
 def own_pubrel(F, R, ver):
+    receipt_after_pubrec(F, R, ver)
     b = F.one(r'^%s::shared::MqttShared::release_publish$' % ver)
     encs = [(bi, t) for bi, t in b.calls_to(IO_ENCODE)]
     R.ob('C14.own-pubrel', '%s|release_publish|one-PUBREL-write' % ver, len(encs) == 1, 'found %d wire writes' % len(encs))
